@@ -154,6 +154,7 @@ class MapperFilter:
     dropped; the order of first occurrence is kept (not used here)."""
     assumed = True
     raises = ()
+    types = {'identifier_list': 'List[str]'}
 
     def modifies(self):
         return []
@@ -166,6 +167,11 @@ class MapperFilter:
 
     def post_fresh(self, result):
         return was_fresh(result)
+
+    def post_known(self, result):
+        """every identifier returned is a known instance (mapper invariant: nick identifiers and stereotypes only name
+        known instances - add_instance, _assign_stereotypes)"""
+        return forall(int, lambda k: implies(0 <= k and k < len(result), result[k] in self._instances))
 
 
 @contract('statemodes:SupvisorsStateModes.get_master_identifiers', props=['C01'])
